@@ -33,16 +33,18 @@ class PathEnd(Exception):
 
 
 class Obj:
-    __slots__ = ("base", "size", "data", "kind", "alive", "name", "owner", "ro")
+    __slots__ = ("base", "size", "data", "kind", "alive", "name", "owner", "ro", "scoped")
 
     def __init__(self, base, size, kind, name, owner, data=None, ro=False):
         self.base, self.size, self.kind, self.name, self.owner, self.ro = base, size, kind, name, owner, ro
         self.data = data if data is not None else [None] * size
         self.alive = True
+        self.scoped = False      # stack object between llvm.lifetime.end and the next lifetime.start
 
     def clone(self, owner):
         o = Obj(self.base, self.size, self.kind, self.name, owner, list(self.data), self.ro)
         o.alive = self.alive
+        o.scoped = self.scoped
         return o
 
 
@@ -231,6 +233,7 @@ class Engine:
         self.total_steps = 0
         self.cur_ins = None
         self.explore = False
+        self.pp_max = 4
         self.time_slice = 400
         self.cur_tid = 1
         self.models = MODELS
@@ -427,6 +430,15 @@ class Engine:
             o.data = data
         else:
             o.data = [0] * size
+            if name.startswith("_ZTI") and size >= 16:
+                # type_info object of a type defined in libstdc++.so / libsupc++: { vptr, name }
+                nm = name[4:].encode() + b"\0"
+                nb = (self.gnext + 15) // 16 * 16
+                self.gnext = nb + len(nm) + 64
+                self.gobj[nb] = Obj(nb, len(nm), "global", "@_ZTS" + name[4:], 0, data=list(nm), ro=True)
+                self.gbases.append(nb)
+                o.data[0:8] = list(self.fake_vptr().to_bytes(8, "little"))
+                o.data[8:16] = list(nb.to_bytes(8, "little"))
             if name.startswith("_ZTT"):
                 # VTT of a libstdc++.so class: every entry leads to the all-zero table
                 fv = list(self.fake_vptr().to_bytes(8, "little"))
@@ -613,6 +625,9 @@ class Engine:
         o = self.find_obj(st, addr)
         if o is None or addr + n > o.base + o.size:
             self.fail_path(st, "MEM:%s of %d bytes outside every live object%s" % (what, n, (" (%d bytes past the start of %s, size %d)" % (addr - o.base, o.name, o.size)) if o else ""), "MEM")
+        if o.scoped:
+            fn = st.frames[-1].fn.name if st.frames else "?"
+            self.fail_path(st, "MEM:use after scope in %s: %s of %s after its lifetime ended" % (fn, what, o.name), "MEM")
         if not o.alive:
             fn = st.frames[-1].fn.name if st.frames else "?"
             label = "MEM:use after %s in %s: %s of %s" % ("free" if o.kind == "heap" else "scope", fn, what, o.name)
@@ -1149,7 +1164,18 @@ class Engine:
             self.finish_call(st, ins, None)   # inline asm (compiler barrier)
             return
         if name.startswith("llvm."):
-            if name.startswith(("llvm.lifetime.", "llvm.dbg.", "llvm.assume", "llvm.invariant.", "llvm.experimental.noalias", "llvm.prefetch", "llvm.donothing", "llvm.var.annotation")):
+            if name.startswith("llvm.lifetime."):
+                p = self.val(fr, ins.ops[1])
+                if isinstance(p, int):
+                    o = self.find_obj(st, p)
+                    if o is not None and o.kind == "stack" and o.base == p:
+                        o = self.wobj(st, o)
+                        o.scoped = name.startswith("llvm.lifetime.end")
+                        if not o.scoped:
+                            o.data = [None] * o.size
+                self.finish_call(st, ins, None)
+                return
+            if name.startswith(("llvm.dbg.", "llvm.assume", "llvm.invariant.", "llvm.experimental.noalias", "llvm.prefetch", "llvm.donothing", "llvm.var.annotation")):
                 self.finish_call(st, ins, None)
                 return
             args = [self.val(fr, a) for a in ins.ops]
@@ -1231,7 +1257,7 @@ def _step(self, st):
         self.do_call(st, fr, ins)
         return
     if st.threads is not None and (op in ("atomicrmw", "cmpxchg", "fence") or (op in ("load", "store") and (A.get("atomic") or A.get("volatile")))):
-        self.sync_point(st)
+        self.sync_point(st, is_load=(op == "load"))
     if op in ("add", "sub", "mul", "udiv", "sdiv", "urem", "srem", "shl", "lshr", "ashr", "and", "or", "xor"):
         a, b = V(0), V(1)
         t = self.m.resolve(ins.ty)
@@ -1573,8 +1599,8 @@ def _spawn(self, st, fn, args, what):
     self.funcs_encoded.add(fn.name)
     tid = len(ts) + 1
     ts.append(dict(tid=tid, frames=[fr], status="run", wait=None, phase=0, skip=False, what=what))
-    self.assumptions.add("threads: sequentially consistent interleaving of whole instructions; context switches at blocking calls, yields, "
-                         "synchronisation calls and atomic operations (bounded preemptions as stated per entry), time-sliced at atomic operations for liveness")
+    self.assumptions.add("threads: sequentially consistent interleaving of whole instructions; context switches at blocking calls and yields; explored preemptions (bounded as stated "
+                         "per entry) are placed before synchronisation calls, fences, atomic/volatile stores and read-modify-writes (not before plain atomic/volatile loads), each program location at most 4 times per path; time-sliced for liveness")
     return tid
 
 
@@ -1640,7 +1666,7 @@ def _wake(self, st, pred, one=False):
     return n
 
 
-def _sync_point(self, st, voluntary=False):
+def _sync_point(self, st, voluntary=False, is_load=False):
     """a point where another thread may be scheduled; returns normally if the current thread keeps running"""
     if st.threads is None:
         return
@@ -1659,7 +1685,15 @@ def _sync_point(self, st, voluntary=False):
             raise Fork([(z3.BoolVal(True), None, st.model, ("switch", j)) for j in order])
         self.switch_to(st, order[0])
         raise Resched()
-    if self.explore and st.preempt_left > 0:
+    if self.explore and st.preempt_left > 0 and not is_load:
+        # each program location serves as a preemption point at most PP_MAX times per path (idle loops would otherwise dominate)
+        fr0 = st.frames[-1]
+        key = (fr0.fn.name, fr0.block.name, fr0.ip)
+        ppc = st.extra.setdefault("ppc", {})
+        c = ppc.get(key, 0)
+        if c >= self.pp_max:
+            return
+        ppc[key] = c + 1
         me["skip"] = True
         alts = [(z3.BoolVal(True), None, st.model, ("stay",))] + [(z3.BoolVal(True), None, st.model, ("preempt", j)) for j in order]
         raise Fork(alts)
@@ -1704,6 +1738,10 @@ def _run_entry(self, name):
                 except Resched:
                     continue
                 except Fork as fk:
+                    if os.environ.get("VP_PATH_DEBUG") == "3":
+                        fr0 = st.frames[-1]
+                        k = "%s | %s" % (fr0.fn.name[:50], str(fr0.block.instrs[fr0.ip])[:60])
+                        self.path_ends["fork@" + k] = self.path_ends.get("fork@" + k, 0) + 1
                     if self.paths + len(work) + len(fk.alts) > self.max_paths:
                         raise Inconclusive("path limit %d" % self.max_paths)
                     succ = []
@@ -1742,6 +1780,8 @@ def _run_entry(self, name):
             raise
         except PathEnd as pe:
             self.paths += 1
+            if os.environ.get("VP_PATH_DEBUG") == "4" and st.steps > 100000:
+                sys.stderr.write("long path: %d steps, %d switches, trace head %s tail %s\n" % (st.steps, len(st.sched_trace), st.sched_trace[:30], st.sched_trace[-10:]))
             k = pe.why if not pe.why.startswith("error:") else "error"
             self.path_ends[k] = self.path_ends.get(k, 0) + 1
             if self.replay is not None:
@@ -2016,6 +2056,11 @@ def m_new(eng, st, ins, name, args):
     return p
 
 
+@model("_ZnwmRKSt9nothrow_t", "_ZnamRKSt9nothrow_t")
+def m_new_nothrow(eng, st, ins, name, args):
+    return _malloc(eng, st, args[0], "operator new")
+
+
 @model("_ZnwmSt11align_val_t", "_ZnamSt11align_val_t")
 def m_new_al(eng, st, ins, name, args):
     p = _malloc(eng, st, args[0], "operator new", align=max(16, _conc(eng, st, args[1], "alignment")))
@@ -2043,7 +2088,7 @@ def m_free(eng, st, ins, name, args):
     return _free(eng, st, args[0], "free")
 
 
-@model("_ZdlPv", "_ZdaPv", "_ZdlPvm", "_ZdaPvm", "_ZdlPvSt11align_val_t", "_ZdaPvSt11align_val_t", "_ZdlPvmSt11align_val_t")
+@model("_ZdlPv", "_ZdaPv", "_ZdlPvm", "_ZdaPvm", "_ZdlPvRKSt9nothrow_t", "_ZdaPvRKSt9nothrow_t", "_ZdlPvSt11align_val_t", "_ZdaPvSt11align_val_t", "_ZdlPvmSt11align_val_t")
 def m_delete(eng, st, ins, name, args):
     return _free(eng, st, args[0], "operator delete")
 
@@ -2438,6 +2483,17 @@ def m_sched(eng, st, ins, name, args):
     return None
 
 
+@model("vp_spawn")
+def m_vp_spawn(eng, st, ins, name, args):
+    fnaddr = _conc(eng, st, args[0], "thread function")
+    fname = eng.fbyaddr.get(fnaddr)
+    if fname is None or eng.m.funcs[fname].is_decl:
+        raise Inconclusive("vp_spawn with unknown function")
+    eng.spawn(st, eng.m.funcs[fname], [args[1]], "vp_spawn " + fname)
+    eng.sync_point(st)
+    return None
+
+
 @model("pthread_create")
 def m_pthread_create(eng, st, ins, name, args):
     fnaddr = _conc(eng, st, args[2], "thread function")
@@ -2551,6 +2607,11 @@ def m_thread_state_dtor(eng, st, ins, name, args):
 @model("vp_threads_created")
 def m_threads_created(eng, st, ins, name, args):
     return st.extra.get("threads_created", 0)
+
+
+@model("vp_threads_live")
+def m_threads_live(eng, st, ins, name, args):
+    return sum(1 for t in (st.threads or []) if t["status"] != "done" and t["tid"] != eng.cur_tid)
 
 
 @model("vp_workers_mode")
